@@ -26,16 +26,26 @@ ALLKF = ('EMPTY', 'CLAMP', 'NEGSTEP', 'NEGSTART')
 def _fam(d, f, maxf=4, **kw):
     c = {'FAM': f, 'DIM': d, 'MAXF': maxf}
     if 's' in f: c.update(_kf(*ALLKF))
-    if f == 'ii': c['NOIDX'] = 1
+    if f == 'ii' and 'CONSTK' not in kw: c['NOIDX'] = 1
     c.update(kw); return c
+def all_fams(dim):
+    import itertools
+    out = []
+    for n in range(1, dim + 2):
+        for t in itertools.product('ise', repeat=n):
+            ne = t.count('e'); nn = n - ne
+            if ne <= 1 and ((ne == 1 and nn <= dim) or (ne == 0 and nn == dim)): out.append(''.join(t))
+    return out
 HARNESSES += [
  dict(name='fam', src='harnesses/C05.c', func='h_fam', kernels=['C05_slice'], unwind=6,
       bounds='packed index::shape_slice / index::slice on 2 and 3 axes; the family (which items are integers i, slices s = (int,int,int), the ellipsis e) is the per-query constant FAM; '
              'every extent 1..MAXF, every slice start/stop in [-(n+2),n+2], step in {-3..3}\\{0}, every integer in [-n,n-1], every result index: symbolic',
       quick=[_fam(d, f) for d in (2, 3) for f in FAMS[d]], thorough=[_fam(d, f, 6) for d in (2, 3) for f in FAMS[d]]),
  dict(name='dyn', src='harnesses/C05.c', func='h_dyn', kernels=['C05_slice'], unwind=6,
-      bounds='index::shape_dynamic_slice / dynamic_slice with a std::vector of either<int, either<array<int,3>, ellipsis>>: item count 1..DIM+1 and every item kind symbolic (at most one ellipsis), DIM the per-query constant; values as in fam',
-      quick=[dict(_kf(*ALLKF), DIM=d, MAXF=3, LISTK='_sv') for d in (2, 3)], thorough=[dict(_kf(*ALLKF), DIM=d, MAXF=4, LISTK='_sv') for d in (2, 3)]),
+      bounds='index::shape_dynamic_slice / dynamic_slice, ONE instantiation per dim: list of either<int, either<array<int,3>, ellipsis>> (LISTK=_sv: bounded static_vector list, else std::vector); '
+             'the item kinds are run-time values of the kernel, enumerated exhaustively as the per-query constant FAM (every sequence of i/s/e with at most one e that addresses DIM axes: 21 for 2 axes, 57 for 3); values as in fam',
+      quick=[_fam(2, f, 3, LISTK='_sv', CONSTK=1) for f in all_fams(2)] + [_fam(3, f, 3, LISTK='_sv', CONSTK=1) for f in all_fams(3)[::5]],
+      thorough=[_fam(d, f, 4, LISTK='_sv', CONSTK=1) for d in (2, 3) for f in all_fams(d)] + [_fam(2, f, 3, CONSTK=1) for f in all_fams(2)]),
 ]
 OUTSIDE = []
 ASSUMPTIONS = []
